@@ -125,4 +125,16 @@ OutDims(t) == {Len(t.nodes[i].m) : i \in {j \in Occ(t) : t.nodes[j].leaf}}
 NodeDimsOK(t) == \A i \in Occ(t) : \A r \in 1..Len(t.nodes[i].m) : Len(t.nodes[i].m[r]) = t.dim
 DecisionRowsOK(t) == \A i \in Occ(t) : ~t.nodes[i].leaf => Len(t.nodes[i].m) >= 1 /\ Pow2(Len(t.nodes[i].m)) <= t.k
 LeafIffNoChildren(t) == \A i \in Occ(t) : t.nodes[i].leaf <=> \A l \in 1..Len(t.nodes[i].ch) : t.nodes[i].ch[l] = NONE
+
+\* ------------------------------------------------------------------ slices
+\* restriction of pieces to the slice {x | x_i = ref_i for the axes that are not kept}: functions of the kept coordinates
+KeepIdx(mask) == SelectSeq([i \in 1..Len(mask) |-> i], LAMBDA i : mask[i])
+FixSum(a, mask, ref) == LET RECURSIVE G(_) G(i) == IF i = 0 THEN 0 ELSE (IF mask[i] THEN 0 ELSE a[i] * ref[i]) + G(i - 1) IN G(Len(mask))
+Restrict(v, ks) == [j \in 1..Len(ks) |-> v[ks[j]]]
+SlicePieces(F, mask, ref) ==
+    LET ks == KeepIdx(mask) IN
+    {[cons |-> {[a |-> Restrict(c.a, ks), b |-> c.b - FixSum(c.a, mask, ref), s |-> c.s] : c \in p.cons},
+      out |-> IF p.out.u THEN U
+              ELSE Out([r \in 1..Len(p.out.m) |-> Restrict(p.out.m[r], ks)],
+                       [r \in 1..Len(p.out.m) |-> p.out.b[r] + FixSum(p.out.m[r], mask, ref)], p.out.q)] : p \in F}
 =============================================================================
